@@ -416,6 +416,57 @@ async fn scripted(name: &str, case: usize, summary: &mut Summary) -> (Sim, Strin
                 det_block(&mut sim, 50_000, vec![], 50, case, summary, &desc, &mut t2).await;
             }
         }
+        // an NFT group leaves the window; the hand-edited block re-points the PAYLOAD input of the 3-input
+        // rebroadcast (from[1]) to a twin output (same key, amount 300_000, slip index 1, type): must be rejected
+        "nft-payload-input-substituted" => {
+            sim = Sim::new(3, 8, 4, ISS, 1_000_000).await;
+            for k in 0..4 {
+                let ts = sim.tip().timestamp + 2 * HEARTBEAT + 1000;
+                let extra = if k == 0 {
+                    let s = sim.spendable().into_iter().find(|s| s.public_key == sim.keys[1].0 && s.amount == 333_000).unwrap();
+                    vec![nft_create(&sim, &s, 300_000, 33_000, ts)]
+                } else if k == 2 {
+                    // block 4: the twin, output index 1 of a payment of the producer to key 2
+                    let big = sim.spendable().into_iter().find(|s| s.public_key == sim.keys[0].0 && s.amount == 500_000).unwrap();
+                    vec![make_tx(&[big.clone()], &[(sim.keys[0].0, 150_000), (sim.keys[1].0, 300_000)], &sim.keys[0].1, ts)]
+                } else {
+                    vec![]
+                };
+                det_block(&mut sim, 50_000, extra, k, case, summary, &desc, &mut tally).await;
+            }
+            // block 6 rebroadcasts the group created in block 2
+            let (ts, gt, txs, created) = det_candidate(&sim, 50_000, 60).await;
+            let mut edited = created.clone();
+            let pos = edited.transactions.iter().position(|t| t.transaction_type == TransactionType::ATR && t.from.len() == 3 && t.from[0].slip_type == SlipType::Bound);
+            let twin = sim.spendable().into_iter().find(|s| s.public_key == sim.keys[1].0 && s.amount == 300_000 && s.block_id == 4 && s.slip_index == 1);
+            match (pos, twin) {
+                (Some(p), Some(tw)) if edited.transactions[p].from[1].amount == tw.amount && edited.transactions[p].from[1].slip_index == tw.slip_index => {
+                    edited.transactions[p].from[1].block_id = tw.block_id;
+                    edited.transactions[p].from[1].tx_ordinal = tw.tx_ordinal;
+                    summary.count("scripted", &format!("{}:group-and-twin-found", name));
+                    reseal(&mut edited, &sim.keys[0].1);
+                    let before = utxo_keys(&sim);
+                    let sr = sim.step(ts, gt, &txs, CreateOutcome::Ok, Some(created.clone()), Some(edited.clone())).await;
+                    if sr.add != Some(AddClass::Invalid) {
+                        summary.oracle_failure(case, &format!("block 6 whose NFT-group rebroadcast names the twin output 4:{}:1 (300_000) instead of the payload 2:{}:1 is not rejected: {:?} {}", tw.tx_ordinal, created.transactions[p].from[1].tx_ordinal, sr.add, sr.panic_msg.clone().unwrap_or_default()), &desc);
+                        if sr.add == Some(AddClass::OnChain) {
+                            let (mult, fpb) = (1u128, sim.chain[sim.chain.len() - 2].avg_fee_per_byte as u128);
+                            let e = sim.chain.iter().find(|b| b.id == 2).cloned();
+                            let rep = atr_oracle(&mut sim, &edited, e.as_ref(), &before, mult, fpb, u128::MAX);
+                            for f in rep.failures.iter().take(3) {
+                                summary.oracle_failure(case, f, &desc);
+                            }
+                        }
+                    } else {
+                        let mut t2 = Tally::default();
+                        det_block(&mut sim, 50_000, vec![], 60, case, summary, &desc, &mut t2).await;
+                    }
+                }
+                (p, t) => {
+                    summary.oracle_failure(case, &format!("coverage: scenario {} did not find the group rebroadcast ({:?}) or the twin ({:?})", name, p, t.map(|s| (s.block_id, s.tx_ordinal, s.slip_index))), &desc);
+                }
+            }
+        }
         // an NFT group (Bound, payload, Bound) that stays unspent for more than two windows, fee per
         // byte 0 (tiny fees): it must travel together at the first AND at the second rebroadcast
         "nft-two-windows" => {
@@ -501,6 +552,7 @@ async fn main() {
         "atr-input-substituted",
         "block-id-jump",
         "nft-two-windows",
+        "nft-payload-input-substituted",
         "input-block-id-overflow",
     ] {
         let case = descs.len();
